@@ -91,6 +91,13 @@ class ChildIO:
         self.real_rename = os.rename
         self.real_unlink = os.unlink
         self.real_osopen = os.open
+        self.real_mkdir = os.mkdir
+
+    def is_cache_dir(self, path):
+        try:
+            return not isinstance(path, int) and os.path.abspath(os.fspath(path)) == self.dir
+        except TypeError:
+            return False
 
     def inside(self, path):
         try:
@@ -118,6 +125,16 @@ class ChildIO:
         cio = self
 
         def stat(path, *a, **k):
+            if cio.is_cache_dir(path):
+                # exists() / is_dir() of the cache directory itself
+                cio.announce("DirStat")
+                try:
+                    st = cio.real_stat(path, *a, **k)
+                except BaseException:
+                    cio.done(exists=False)
+                    raise
+                cio.done(exists=True)
+                return st
             if isinstance(path, int) or not cio.inside(path):
                 return cio.real_stat(path, *a, **k)
             cio.announce("Stat", name=os.path.basename(os.fspath(path)))
@@ -206,6 +223,19 @@ class ChildIO:
                 return r
             return cio.real_unlink(path, *a, **k)
 
+        def mkdir(path, *a, **k):
+            if not cio.is_cache_dir(path):
+                return cio.real_mkdir(path, *a, **k)
+            cio.announce("Mkdir")
+            try:
+                r = cio.real_mkdir(path, *a, **k)
+            except BaseException as ex:
+                cio.done(created=False, error=type(ex).__name__)
+                raise
+            cio.done(created=True)
+            return r
+
+        os.mkdir = mkdir
         builtins.open = open_
         io.open = open_
         os.stat = stat
@@ -357,6 +387,8 @@ class Scheduler:
 
     def snapshot(self, d, owner):
         snap = {}
+        if not os.path.isdir(d):
+            return snap
         for fname in sorted(os.listdir(d)):
             name = self.abstract_name(fname, owner)
             if name == "orphan":  # temporary file of a killed call: unique name, never reused
@@ -366,7 +398,13 @@ class Scheduler:
 
     # -- one scenario -------------------------------------------------------------------
     def run_scenario(self, steps):
-        d = tempfile.mkdtemp(prefix="vf_c16_")
+        # the cache directory is a sub-directory that exists already unless the scenario starts with ["nodir"] (first use)
+        base = tempfile.mkdtemp(prefix="vf_c16_")
+        d = os.path.join(base, "cache")
+        if steps and steps[0][0] == "nodir":
+            steps = steps[1:]
+        else:
+            os.mkdir(d)
         events = []
         kids = {}  # p -> dict(pid, r, w, pending)
         owner = {}  # temp file name -> abstract temp name
@@ -427,7 +465,7 @@ class Scheduler:
                 reap(p)
                 return False
             op = msg["op"]
-            drift = bool(expect) and expect != op
+            drift = bool(expect) and {"EnsureDir": "Mkdir"}.get(expect, expect) != op
             if op == "Return":
                 k["w"].write("{}\n")
                 k["w"].flush()
@@ -462,6 +500,8 @@ class Scheduler:
                 dst = absname(msg, p, "dst")
                 owner.pop(msg["src"], None)
                 log("Replace", p, src=src, dst=dst, drift=drift)
+            elif op in ("Mkdir", "DirStat"):
+                log(op, p, drift=drift, **{kk: (int(vv) if isinstance(vv, bool) else vv) for kk, vv in info.items()})
             elif op in ("Stat", "OpenR", "OpenW", "Load", "Write", "Close", "Unlink"):
                 log(op, p, name=absname(msg, p), drift=drift, **{kk: (int(vv) if isinstance(vv, bool) else vv) for kk, vv in info.items()},
                     **({"chunk": msg["chunk"]} if op == "Write" else {}))
@@ -474,6 +514,8 @@ class Scheduler:
                 kind, p = st[0], st[1]
                 if kind == "call":
                     e = st[2]
+                    while p in kids:   # (a schedule that is out of step with the code: the earlier call of this process finishes first)
+                        perform(p, "")
                     c2p_r, c2p_w = os.pipe()
                     p2c_r, p2c_w = os.pipe()
                     sys.stdout.flush()
@@ -521,6 +563,9 @@ class Scheduler:
                 elif kind == "step":
                     if p in kids:
                         perform(p, st[2] if len(st) > 2 else "")
+                        # one tolerant mkdir = os.mkdir and, when the directory was there, a look at it (is_dir): one model step
+                        while len(st) > 2 and st[2] == "EnsureDir" and p in kids and (pending(p) or {}).get("op") == "DirStat":
+                            perform(p, "")
                 elif kind == "crash":
                     if p in kids:
                         pending(p)
@@ -549,7 +594,7 @@ class Scheduler:
             for p in list(kids):
                 reap(p)
             self.planted_names = {}
-            shutil.rmtree(d, ignore_errors=True)
+            shutil.rmtree(base, ignore_errors=True)
         return events
 
 
